@@ -111,7 +111,9 @@ def rand_spec(rng):
         if rng.random() < 0.15:
             kind, bump = 'none', None
         elif rng.random() < 0.3:      # the same integer as a numpy scalar of any width (C10-D1: `(t1-t0).days * np.int8(1)` overflowed beyond 127 days)
-            kind, bump = 'int-np', rng.choice([np.int8, np.int16, np.int32, np.int64])(sgn * n)
+            # (review5 w3 §2-4: since e030b7f is_int admits np.longlong and the unsigned kinds too - a positive bump is now and then one of those)
+            pool = [np.int8, np.int16, np.int32, np.int64, np.longlong] + ([np.uint8, np.uint16, np.uint32, np.uint64, np.ulonglong] if sgn > 0 else [])
+            kind, bump = 'int-np', rng.choice(pool)(sgn * n)
         t1 = t0 + sgn * span * DAY
     elif r < 0.30:    # timedelta, any endpoints
         unit = rng.choice([TD(1), TD(1), TD(hours=1), TD(hours=4), TD(minutes=15), TD(seconds=90), TD(days=1, hours=12), TD(microseconds=250000), TD(7)])
@@ -120,6 +122,9 @@ def rand_spec(rng):
         steps = rng.choice([0, 1, 2, 3, 10, rng.randrange(1, 400)])
         t1 = t0 + sgn * (steps * k * unit + rng.choice([TD(0), TD(0), unit * k / 2, TD(seconds=1)]))
         kind, bump = 'td', sgn * k * unit
+        # the same duration as numpy's timedelta (what a difference of np.datetime64 / an element of a timedelta64 array is; C09-D1 rules it a
+        # timedelta for dt_bump, so does C10 - review5 w3 §2-2, defect C10-D2: drange returned None): spec['np'] keeps the python timedelta
+        np_td_flag = rng.random() < 0.25
     elif r < 0.52:    # single period with a fixed-length unit
         u = rng.choice('dwhns' + 'dw')
         k = rng.choice([1, 1, 2, 3, 5, 12])
@@ -203,7 +208,24 @@ def rand_spec(rng):
     elif rng.random() < 0.12 and bump is not None:   # point the bump away from t1
         kind = 'away-' + kind.split('-')[0]
         t1 = t0 - (t1 - t0)
-    return dict(kind=kind, t0=t0, t1=t1, bump=bump)
+    spec = dict(kind=kind, t0=t0, t1=t1, bump=bump)
+    if kind.split('-')[-1] == 'td' and isinstance(bump, TD) and bump != TD(0) and r >= 0.16 and r < 0.30 and np_td_flag:
+        spec['np'] = True
+    return spec
+
+
+NP_TD_UNITS = [('us', 1), ('ms', 10 ** 3), ('s', 10 ** 6), ('m', 60 * 10 ** 6), ('h', 3600 * 10 ** 6), ('D', 86400 * 10 ** 6), ('W', 7 * 86400 * 10 ** 6)]
+
+
+def np_td(us):
+    """the np.timedelta64 of `us` microseconds in the coarsest unit that holds it exactly"""
+    unit, k = [(u, k) for u, k in NP_TD_UNITS if us % k == 0][-1]
+    return np.timedelta64(us // k, unit)
+
+
+def bump_arg(spec):
+    """the object handed to drange"""
+    return np_td(spec['bump'] // proto.US) if spec.get('np') else spec['bump']
 
 
 def enc_bump(b):
@@ -219,7 +241,10 @@ def enc_bump(b):
 
 
 def line_of(spec):
-    return '(drange run %d %d %s)' % (dt2us(spec['t0']), dt2us(spec['t1']), enc_bump(spec['bump']))
+    b = enc_bump(spec['bump'])
+    if spec.get('np') and b.startswith('(td '):
+        b = '(tdnp ' + b[4:]
+    return '(drange run %d %d %s)' % (dt2us(spec['t0']), dt2us(spec['t1']), b)
 
 
 # ---- endpoints as other python objects denoting the same instant (round k3; reviews4 v3 §C10.2-3, open since r3): `date_range` resolves
@@ -267,8 +292,8 @@ def respell_endpoints(rng, spec, line):
     if ks == ['dt', 'dt']:
         ks[rng.randrange(2)] = 'ts'
     b = enc_bump(spec['bump'])
-    if b.startswith('(td ') and rng.random() < 0.5:
-        b = '(tdpd ' + b[4:]
+    if b.startswith('(td ') and rng.random() < 0.6:
+        b = rng.choice(['(tdpd ', '(tdpd ', '(tdnp ']) + b[4:]
     return '(drange runas %s %s %d %d %s)' % (ks[0], ks[1], dt2us(spec['t0']), dt2us(spec['t1']), b)
 
 
@@ -365,7 +390,7 @@ def _generate(rng, tier):
     yield dict(tag='dt_bump', lines=lines)
     for _ in range(n):
         spec = rand_spec(rng)
-        yield dict(tag=spec['kind'], lines=[line_of(spec)])
+        yield dict(tag=spec['kind'] + ('-np' if spec.get('np') else ''), lines=[line_of(spec)])
         if rng.random() < 0.12:
             ln = respell_endpoints(rng, spec, line_of(spec))
             if ln is not None:
@@ -399,6 +424,8 @@ def dec_bump(x):
     if x[0] == 'tdpd':
         import pandas as pd
         return pd.Timedelta(microseconds=int(x[1]))
+    if x[0] == 'tdnp':
+        return np_td(int(x[1]))
     return unhex(x[1])
 
 
@@ -407,8 +434,8 @@ def run_line(state, sx):
     op, args = sx[1], sx[2:]
     if op == 'run':
         res = pyg_base.drange(us2dt(int(args[0])), us2dt(int(args[1])), dec_bump(args[2]))
-        if not isinstance(res, list):
-            raise proto.Unencodable('drange returned %r' % type(res))
+        if not isinstance(res, list):      # e.g. None (defect C10-D2): an answer that is not a list is reported, not skipped
+            return 'ok S:' + hexs(repr(res)[:60])
         out = 'ok (L' + ''.join(' T:%d' % dt2us(t) for t in res) + ')'
         # the statement is about the VALUE of drange(t0, t1, bump): it may not depend on what the caller did to an earlier result.
         # The returned list is edited in place and the same call is made again (seeded C10-u1: a memoised list handed to the caller)
@@ -447,7 +474,7 @@ def run_line(state, sx):
         t0, t1 = as_kind(args[0], us2dt(int(args[2]))), as_kind(args[1], us2dt(int(args[3])))
         res = pyg_base.drange(t0, t1, dec_bump(args[4]))
         if not isinstance(res, list):
-            raise proto.Unencodable('drange returned %r' % type(res))
+            return 'ok S:' + hexs(repr(res)[:60])
         return 'ok (L' + ''.join(' T:%d' % dt2us(as_datetime(t)) for t in res) + ')'
     if op == 'crun':
         from pyg_base._drange import Calendar
@@ -459,6 +486,8 @@ def run_line(state, sx):
             Calendar(None, holidays=[D(2000, 3, 1) + TD(i) for i in range(40)], weekend=6, t0=D(1999, 1, 1), t1=D(2002, 1, 1))])
         cal = cals[(int(args[0]) // (86400 * 10 ** 6)) % 3]
         res = cal.drange(us2dt(int(args[0])), us2dt(int(args[1])), dec_bump(args[2]))
+        if not isinstance(res, list):
+            return 'ok S:' + hexs(repr(res)[:60])
         return 'ok (L' + ''.join(' T:%d' % dt2us(t) for t in res) + ')'
     if op == 'bump':
         return 'ok T:%d' % dt2us(pyg_base.dt_bump(us2dt(int(args[0])), unhex(args[1])))
@@ -518,8 +547,13 @@ def _laws(rng, tier, ctx):
     for _ in range(2500 if tier == 'quick' else 120000):
         spec = rand_spec(rng)
         kind, t0, t1, bump = spec['kind'], spec['t0'], spec['t1'], spec['bump']
-        case = dict(tag='law-' + kind, lines=[line_of(spec)])
-        res = _call(lambda: drange(t0, t1, bump))
+        case = dict(tag='law-' + kind + ('-np' if spec.get('np') else ''), lines=[line_of(spec)])
+        arg = bump_arg(spec)
+        res = _call(lambda: drange(t0, t1, arg))
+        if not isinstance(res, (list, str)):
+            count += 1
+            yield Finding('violation', case, 'drange returned %r: neither the list nor a ValueError' % (res,))
+            continue
         count += 1
 
         def bad(msg, extra=None):
